@@ -43,6 +43,8 @@ def run(plan):
     cfg = plan["config"]
     reply = bytes.fromhex(plan["reply"])
     dev.raw_frame_handler = lambda conn, frame, key, d: [reply]
+    if plan.get("unit_ts"):
+        dev.resp_ts = bytes.fromhex(plan["unit_ts"])      # the unit's own idea of the time (not a calendar time at all)
     delivered_changed = [False]
 
     async def main_v3(w):
@@ -80,7 +82,7 @@ def run(plan):
             got, kind = e, "protocol_error"
         except Exception as e:
             got, kind = e, "other"
-        orig = codec.v2_encode(dev.device_id, reply, magic=dev.resp_magic)
+        orig = codec.v2_encode(dev.device_id, reply, magic=dev.resp_magic, ts=getattr(dev, "resp_ts", None) or bytes(8))
         delivered_changed[0] = getattr(dev, "last_inner", orig) != orig
         if kind == "other":
             res.fail(f"corrupted packet raised {type(got).__name__} instead of ProtocolError", repr(got))
@@ -213,7 +215,7 @@ def run(plan):
         # what was actually delivered?
         conn = w.net.conns[0]
         import refmodel.codec as codec
-        orig = codec.v2_encode(dev.device_id, reply, magic=dev.resp_magic)
+        orig = codec.v2_encode(dev.device_id, reply, magic=dev.resp_magic, ts=getattr(dev, "resp_ts", None) or bytes(8))
         conn = w.net.conns[-1]
         if plan.get("before") or plan.get("queued_before"):
             delivered = bytes(conn.tx_stream)[-len(orig):] if plan["mutate"]["kind"] != "trunc" else b""
@@ -253,7 +255,7 @@ def run(plan):
         res.fail(f"liveness: {type(e).__name__}", str(e))
     res.take(w)
     res.add_fired(dev.fired)
-    res.key = (plan["reply"], repr(plan["mutate"]), bool(plan.get("warm")), bool(plan.get("as_extra")), bool(plan.get("pair")), bool(plan.get("after_drop")), plan["config"].get("version"), bool(plan.get("straddle")), bool(plan.get("authentic_after")), bool(plan.get("abandoned")), bool(plan.get("then_authentic")), repr(plan.get("before")), bool(plan.get("queued_before")))
+    res.key = (plan["reply"], repr(plan["mutate"]), bool(plan.get("warm")), bool(plan.get("as_extra")), bool(plan.get("pair")), bool(plan.get("after_drop")), plan["config"].get("version"), bool(plan.get("straddle")), bool(plan.get("authentic_after")), bool(plan.get("abandoned")), bool(plan.get("then_authentic")), repr(plan.get("before")), bool(plan.get("queued_before")), plan.get("unit_ts"))
     res.nontrivial = delivered_changed[0]
     return res
 
@@ -280,7 +282,10 @@ def space(tier):
 
     def truncs(j, rng):
         L, n = trunc_index[j]
-        return {"config": base, "reply": frame_for(L).hex(), "mutate": {"kind": "trunc", "len": n}}
+        p = {"config": base, "reply": frame_for(L).hex(), "mutate": {"kind": "trunc", "len": n}}
+        if j % 2:
+            p["unit_ts"] = ["eaa908020c081714", "ff" * 8, "003c3c18200d6363"][(j // 2) % 3]
+        return p
     sp.add("trunc_all", len(trunc_index), truncs, exhaustive=True)
     pos_index = []
     for L in LENS:
@@ -345,6 +350,8 @@ def space(tier):
                 "warm": rng.random() < 0.5, "as_extra": rng.random() < 0.25, "pair": rng.random() < 0.4,
                 "then_authentic": rng.random() < 0.5,
                 "after_drop": rng.random() < 0.25, "authentic_after": rng.random() < 0.2, "abandoned": rng.random() < 0.2}
+        if rng.random() < 0.3:
+            p["unit_ts"] = rng.choice(["eaa908020c081714", "ff" * 8, "00000000000d0000", "003c3c18200d6363", rand_bytes(rng, 8).hex()])
         if p["as_extra"] or p["abandoned"] or p["authentic_after"] or p["after_drop"]:
             return p
         if rng.random() < 0.5:
